@@ -249,6 +249,16 @@ def evaluate(case):
                     fails.append((B + ['projection', 'result-type'], f'{type(r)}'))
                 else:
                     fails += _dedup(_compare(r, exp, all_rows, columns, B + ['projection'], ctx + f' columns={columns}'), seen)
+                ixn = exp['index_name']
+                if case.get('columns_with_index') is not None and ixn is not None and ixn not in columns and n > 0:
+                    # the projection may also name the stored index column itself: it is still "those columns plus the index"
+                    req = list(columns)
+                    req.insert(case['columns_with_index'] % (len(req) + 1), ixn)
+                    r = lib(B + ['read_parquet', 'columns+index'], read_parquet, path, columns=req)
+                    if not isinstance(r, sp.GeoDataFrame):
+                        fails.append((B + ['projection+index', 'result-type'], f'{type(r)}'))
+                    else:
+                        fails += _dedup(_compare(r, exp, all_rows, columns, B + ['projection+index'], ctx + f' columns={req}'), seen)
         else:
             sizes = case['sizes']
             ctx += f' sizes={sizes} builder={case.get("builder", "delayed")}'
@@ -410,6 +420,7 @@ def _case(draw):
         if not any(c in GEOM_NAMES for c in sub):
             sub.insert(draw(st.integers(0, len(sub))), draw(st.sampled_from([g['name'] for g in geoms])))
         case['columns'] = sub
+        case['columns_with_index'] = draw(st.sampled_from([None, 0, 1, 2, 5]))
     else:
         case['columns'] = None
     if case['path'] == 'dask':
